@@ -51,9 +51,45 @@ func nearMiss(s string, variant string) string {
 		return " " + s
 	case "empty":
 		return ""
+	case "userinfo": // https://x@host/... : another URL that only a URL parser considers "the same host"
+		if i := strings.Index(s, "://"); i > 0 {
+			return s[:i+3] + "idp.example.com@" + s[i+3:]
+		}
+		return "u@" + s
+	case "fragment":
+		return s + "#https://other.example.com/"
+	case "trailing-q":
+		return s + "?"
+	case "pct-letter": // one path letter percent-encoded
+		if i := strings.LastIndex(s, "/"); i >= 0 && i+1 < len(s) {
+			return s[:i+1] + fmt.Sprintf("%%%02X", s[i+1]) + s[i+2:]
+		}
+		return s + "%41"
+	case "pct-slash":
+		if i := strings.LastIndex(s, "/"); i > 8 {
+			return s[:i] + "%2F" + s[i+1:]
+		}
+		return s + "%2F"
+	case "host-case":
+		if i := strings.Index(s, "://"); i > 0 {
+			return s[:i+3] + strings.ToUpper(s[i+3:i+5]) + s[i+5:]
+		}
+		return strings.ToUpper(s)
+	case "default-port":
+		if i := strings.Index(s, "://"); i > 0 {
+			if j := strings.Index(s[i+3:], "/"); j > 0 {
+				return s[:i+3+j] + ":443" + s[i+3+j:]
+			}
+		}
+		return s + ":443"
+	case "nfd": // a combining sequence after the last character
+		return s + "\u0301"
 	}
 	return s + ".evil.example"
 }
+
+// urlVariants: values a URL-normalising comparison would wrongly equate with the right one.
+var urlVariants = []string{"userinfo", "fragment", "trailing-q", "pct-letter", "pct-slash", "host-case", "default-port", "nfd"}
 
 // cfgVariants name OTHER configured strings of the service provider: a value that the SP knows, but that is
 // not the one the checked field must equal (a check that compares against "any of my endpoints" accepts them).
@@ -93,20 +129,20 @@ func wrongValue(sp h.SPConfig, right, variant string) string {
 
 var respFaults = map[string][]string{
 	"version":     {"absent", "1.1", "2.00", " 2.0", "2", "", "02.0", "+2.0", "2e0", "2.0 ", "2.0.0", "0x1p1"},
-	"destination": append([]string{"wrong", "slash", "case", "space", "lspace"}, cfgVariants...),
-	"issuer":      append([]string{"absent", "wrong", "slash", "case", "space", "empty"}, cfgVariants...),
+	"destination": append(append([]string{"wrong", "slash", "case", "space", "lspace"}, cfgVariants...), urlVariants...),
+	"issuer":      append(append([]string{"absent", "wrong", "slash", "case", "space", "empty"}, cfgVariants...), urlVariants...),
 	"status":      {"absent"},
-	"statuscode":  {"absent", "Requester", "success-case", "empty", "valueabsent"},
+	"statuscode":  {"absent", "Requester", "success-case", "empty", "valueabsent", "nested-success", "nested-success-deep", "success-space"},
 	"noassertion": {"-"},
 }
 
 var asrtFaults = map[string][]string{
-	"issuer":    append([]string{"absent", "wrong", "slash", "case", "space", "empty"}, cfgVariants...),
+	"issuer":    append(append([]string{"absent", "wrong", "slash", "case", "space", "empty"}, cfgVariants...), urlVariants...),
 	"subject":   {"absent"},
 	"sc":        {"absent"},
 	"method":    {"holder", "absent", "bearer-case", "empty"},
 	"scd":       {"absent"},
-	"recipient": append([]string{"absent", "wrong", "slash", "case", "space", "empty"}, cfgVariants...),
+	"recipient": append(append([]string{"absent", "wrong", "slash", "case", "space", "empty"}, cfgVariants...), urlVariants...),
 	"nooa":      {"absent", "empty", "garbage", "dateonly", "nozone", "lspace", "past1ns", "past1s", "past1h"},
 }
 
@@ -176,6 +212,14 @@ func applyFault(m *h.ResponseModel, sp h.SPConfig, f Fault) (ErrSpec, bool) {
 				m.StatusCode = h.S("")
 			case "valueabsent":
 				m.StatusCode = h.None
+			case "nested-success": // the TOP-LEVEL code decides; a subordinate Success does not make a failure a success
+				m.StatusCode = h.S("urn:oasis:names:tc:SAML:2.0:status:Responder")
+				m.SubCodes = []string{h.StatusSuccess}
+			case "nested-success-deep":
+				m.StatusCode = h.S("urn:oasis:names:tc:SAML:2.0:status:Requester")
+				m.SubCodes = []string{"urn:oasis:names:tc:SAML:2.0:status:RequestDenied", h.StatusSuccess}
+			case "success-space":
+				m.StatusCode = h.S(h.StatusSuccess + " ")
 			}
 			return ErrSpec{Type: "ErrInvalidValue", Key: "StatusCode"}, true
 		case "noassertion":
